@@ -571,5 +571,43 @@ Definition to_cdiagram (r : rdiagram) : cdiagram :=
   {| classes := map (fun kc => render_class (snd kc)) (rd_classes r);
      inhs := map (fun ki => {| i_to := ri_to_id (snd ki); i_from := ri_from_id (snd ki); i_real := ri_real (snd ki) |}) (rd_inhs r) |}.
 
+(* ---------------------------------------------------------------- the same for the C# back end (LanguageCsharp's helpers) *)
+
+(* LanguageCsharp.GetTypeAndNameFromMultiplicityAndModifier: qualified names with dots, no pointer / reference modifiers, List<>
+   for vectors, [] behind the TYPE for arrays *)
+Definition type_and_name_cs (ty modifier mult name : string) : string * string :=
+  let ty := replace_all "::" "." ty in
+  let md := if contains "*" modifier || contains "&" modifier then "" else modifier in
+  if String.eqb (py_strip md) "[]" && String.eqb mult "" then ("List<" ++ ty ++ ">", name)
+  else
+    let ct := container_type mult in
+    if contains "vector" ct then ("List<" ++ ty ++ md ++ ">", name)
+    else if contains "array" ct then (ty ++ md ++ "[]", name)
+    else (ty ++ md, name).
+
+(* a parameter as harness/umlsynth.abstract_cs computes it: ref for inout, out for out, nothing for in; the default through
+   GetDefaultFormatFromMultiplicityAndModifier (the same text as in LanguageCPP, with the modifier as drawn) *)
+Definition render_param_cs (p : rparam) : param :=
+  let tn := type_and_name_cs (py_strip (rp_type p)) (py_strip (rp_modifier p)) (py_strip (rp_mult p)) (py_strip (rp_name p)) in
+  let d := py_strip (rp_dir p) in
+  {| p_type := lstrip ((if contains "inout" d then "ref " else if contains "out" d then "out " else "") ++ fst tn); p_name := snd tn;
+     p_default := if String.eqb (py_strip (rp_default p)) "" then ""
+                  else default_format (py_strip (rp_modifier p)) (py_strip (rp_mult p)) (rp_default p);
+     p_ext := snd (type_and_name_cs (py_strip (rp_type p)) (py_strip (rp_modifier p)) (py_strip (rp_mult p)) "") |}.
+
+Definition render_op_cs (o : rop) : oper :=
+  {| o_name := ro_name o; o_vis := ro_vis o; o_ret := fst (type_and_name_cs (ro_ret o) (ro_retmod o) "" "");
+     o_params := map render_param_cs (ro_params o); o_virtual := ro_virtual o; o_static := ro_static o; o_const := ro_const o |}.
+
+Definition render_class_cs (c : rclass) : cls :=
+  {| c_id := rc_id c; c_name := rc_name c; c_ns := rc_ns c; c_enum := rc_enum c; c_struct := rc_struct c; c_autogen := rc_autogen c;
+     c_pure := rc_pure c; c_ops := map render_op_cs (rc_ops c) |}.
+
+Definition to_cdiagram_cs (r : rdiagram) : cdiagram :=
+  {| classes := map (fun kc => render_class_cs (snd kc)) (rd_classes r);
+     inhs := map (fun ki => {| i_to := ri_to_id (snd ki); i_from := ri_from_id (snd ki); i_real := ri_real (snd ki) |}) (rd_inhs r) |}.
+
+Definition adaptor_cs (d : db) (name : string) : option cdiagram := r <- load_cdiagram d name ;; Some (to_cdiagram_cs r).
+
 (* project rows -> the diagram the generator model works on *)
 Definition adaptor (d : db) (name : string) : option cdiagram := r <- load_cdiagram d name ;; Some (to_cdiagram r).
